@@ -339,8 +339,8 @@ func (vs *ValueSet) Signature() []reflect.Type {
 		return []reflect.Type{vs.structType}
 	}
 
-	result := make([]reflect.Type, len(vs.typedValues))
-	for _, v := range vs.typedValues {
+	result := make([]reflect.Type, len(vs.values))
+	for _, v := range vs.values {
 		result[v.index] = v.Type
 	}
 
@@ -358,8 +358,8 @@ func (vs *ValueSet) SignatureValues() []reflect.Value {
 
 	// If we're lifted, we just return directly based on values
 	if vs.lifted() {
-		result := make([]reflect.Value, len(vs.typedValues))
-		for _, v := range vs.typedValues {
+		result := make([]reflect.Value, len(vs.values))
+		for _, v := range vs.values {
 			result[v.index] = v.valueOrZero()
 		}
 
@@ -384,7 +384,7 @@ func (vs *ValueSet) FromSignature(values []reflect.Value) error {
 		// If we are lifted, then we need to translate the output arguments
 		// to their proper types in a struct.
 		structOut := reflect.New(vs.structType).Elem()
-		for _, f := range vs.typedValues {
+		for _, f := range vs.values {
 			structOut.Field(f.index).Set(values[f.index])
 		}
 
@@ -452,7 +452,7 @@ func (t *ValueSet) result(r Result) Result {
 	// If we are lifted, then we need to translate the output arguments
 	// to their proper types in a struct.
 	structOut := reflect.New(t.structType).Elem()
-	for _, f := range t.typedValues {
+	for _, f := range t.values {
 		structOut.Field(f.index).Set(r.out[f.index])
 	}
 
@@ -581,8 +581,8 @@ func (v *structValue) CallIn() []reflect.Value {
 	}
 
 	// This is lifted, so we need to unpack them in order.
-	result := make([]reflect.Value, len(v.typ.typedValues))
-	for _, f := range v.typ.typedValues {
+	result := make([]reflect.Value, len(v.typ.values))
+	for _, f := range v.typ.values {
 		result[f.index] = v.value.Field(f.index)
 	}
 
